@@ -343,7 +343,7 @@ impl World {
             .scripted
             .iter()
             .copied()
-            .find(|f| f.site == site && f.nth == nth);
+            .find(|f| f.site == site && f.nth == nth && f.run_phase == self.running);
         if let Some(f) = scripted {
             errno = f.errno;
         } else if self.running {
